@@ -9,7 +9,7 @@ FUNCS = ["cdd.compound.gen_utils.get_functions_and_classes", "cdd.compound.gen_u
 ASSUMPTIONS = ["kernel: the part of gen that decides WHICH names are generated and exported (get_functions_and_classes + get_emit_kwarg) runs before any "
                "text is rendered; the text tail of gen_module (__all__ assignment, import ordering, compile) is checked concretely on the replayed witness only",
                "entry names are drawn from a finite alphabet (they are realised by print/format and ensure_valid_identifier's C helpers): solver-enumerated"]
-ALPHA = "aif_9."
+ALPHA = "aif_9.\u00e9"
 TPLS = ("{name}", "{name}Config", "Cfg{name}")
 KINDS = ("class_", "function", "argparse_function", "sqlalchemy", "sqlalchemy_table", "json_schema")
 SRC = "class %s(object):\n    '''\n    Doc.\n\n    :cvar a: an a\n    '''\n    a: int = 5\n"
@@ -57,7 +57,7 @@ def export_names(kind, tpl, n, i0, i1, j0, j1):
         return "generated %d symbols and %d __all__ entries for %d input entries" % (len(nodes), len(all_), n)
     for k in range(n):
         templated = name_tpl.format(name=names[k])
-        if templated.isidentifier() and ensure_valid_identifier(templated) == templated and all_[k] != templated:
+        if templated.isascii() and templated.isidentifier() and ensure_valid_identifier(templated) == templated and all_[k] != templated:
             return "__all__ entry %r is not the templated name %r" % (all_[k], templated)
         got = emitted_name(emit_name, nodes[k])
         if got is not None and emit_name != "sqlalchemy_table" and emit_name != "sqlalchemy" and got != all_[k]:
@@ -69,11 +69,11 @@ def export_names(kind, tpl, n, i0, i1, j0, j1):
 
 for _k, _kind in enumerate(KINDS):
     for _tp in range(len(TPLS)):
-        ob("C19", "K1.exports.%s.t%d" % (_kind, _tp), {"kind": R(_k, _k), "tpl": R(_tp, _tp), "n": R(1, 1), "i0": R(0, 5), "i1": R(0, 5), "j0": R(0, 0), "j1": R(0, 0)},
-           pre="i0 != 5", tier="quick" if _kind in ("class_", "function", "argparse_function") and _tp < 2 else "thorough", T=400, tpath=60, funcs=FUNCS,
-           bound="one input entry whose name is ANY 2 characters over %r (not starting with '.'), name template %r, emit kind %s (solver-enumerated)" % (ALPHA, TPLS[_tp], _kind))(export_names)
-    ob("C19", "K1.exports2.%s" % _kind, {"kind": R(_k, _k), "tpl": R(1, 1), "n": R(2, 2), "i0": R(0, 0), "i1": R(1, 1), "j0": R(0, 5), "j1": R(0, 5)},
-       pre="j0 != 5", tier="quick" if _kind == "class_" else "thorough", T=400, tpath=60, funcs=FUNCS,
+        ob("C19", "K1.exports.%s.t%d" % (_kind, _tp), {"kind": R(_k, _k), "tpl": R(_tp, _tp), "n": R(1, 1), "i0": R(0, 6), "i1": R(0, 6), "j0": R(0, 0), "j1": R(0, 0)},
+           tier="quick" if _kind in ("class_", "function", "argparse_function") and _tp < 2 else "thorough", T=400, tpath=60, funcs=FUNCS,
+           bound="one input entry whose name is ANY 2 characters over %r, name template %r, emit kind %s (solver-enumerated)" % (ALPHA, TPLS[_tp], _kind))(export_names)
+    ob("C19", "K1.exports2.%s" % _kind, {"kind": R(_k, _k), "tpl": R(1, 1), "n": R(2, 2), "i0": R(0, 0), "i1": R(1, 1), "j0": R(0, 6), "j1": R(0, 6)},
+       tier="quick" if _kind == "class_" else "thorough", T=400, tpath=60, funcs=FUNCS,
        bound="two input entries: 'ai' and ANY 2 characters over %r (distinct), template '{name}Config', emit kind %s" % (ALPHA, _kind))(export_names)
 
 
